@@ -10,7 +10,7 @@ PROC_TIMEOUT = 1500
 RULE = ('schedules of the cooperative scheduler (scheduling points = wrapped pthread calls): for each scenario '
         '(ExecutorThread with 0-3 producers x 0-3 callbacks; FutureImpl raw-pointer pattern; FutureImpl with 0-2 '
         'extra getter copies; ExecutorThread with callbacks that call Execute again; SelectServer::Execute from 1-3 threads with callbacks that call Execute again, 0-3 RunOnce '
-        'iterations, rest drained by the destructor; PeriodicThread constructor + Stop with schedulable time-outs of the timed wait; ThreadPool with two workers and 1-3 closures; ThreadPool where the first r closures are two-stage jobs that hand a follow-up to the same pool when run (also after JoinAll set m_shutdown); Future<int> and Future<void> handle operations (self-assignment of a sole owner, assignment between handles sharing a state, assignment over a live state, std::swap, destruction order) with a setter thread holding a copy; MutexLocker with early Release and two contenders; real FileBackedPreferences + FilePreferenceSaverThread (SetValue, Save, SetValue, Synchronize, read file, Join; two concurrent Synchronize callers; Start immediately followed by Join); SelectServer::Run with Execute/Terminate/Execute/Execute from another thread, Run again after Terminate; SelectServer with a callback that calls DrainCallbacks(); the event loop blocks in select() (wrapped) and a sleeping loop with queued callbacks and an empty pipe is reported as lost-wakeup) the non-preemptive run, every single preemption (position x thread), pairs of '
+        'iterations, rest drained by the destructor; PeriodicThread constructor + Stop with schedulable time-outs of the timed wait; ThreadPool with two workers and 1-3 closures; ThreadPool where the first r closures are two-stage jobs that hand a follow-up to the same pool when run (also after JoinAll set m_shutdown); Future<int> and Future<void> handle operations (self-assignment of a sole owner, assignment between handles sharing a state, assignment over a live state, std::swap, destruction order) with a setter thread holding a copy; Future<int>/Future<void> polled with IsComplete() up to k times (then Get()) by one thread while another calls Set(); MutexLocker with early Release and two contenders; real FileBackedPreferences + FilePreferenceSaverThread (SetValue, Save, SetValue, Synchronize, read file, Join; two concurrent Synchronize callers; Start immediately followed by Join); SelectServer::Run with Execute/Terminate/Execute/Execute from another thread, Run again after Terminate; SelectServer with a callback that calls DrainCallbacks(); the event loop blocks in select() (wrapped) and a sleeping loop with queued callbacks and an empty pipe is reported as lost-wakeup) the non-preemptive run, every single preemption (position x thread), pairs of '
         'preemptions (all in thorough, sampled in quick except for the two small Future scenarios, where all pairs run in quick), injected spurious wake-ups at every position (alone and '
         'combined with a preemption), and random schedules; non-trivial = the run has >= 1 wait/wake or >= 1 callback '
         'run and ends normally; distinct = distinct model output line (trace of synchronisation operations)')
@@ -20,7 +20,7 @@ ASSUMPTIONS = ['the wrapped pthread entry points are the only synchronisation in
                'callbacks themselves perform no synchronisation (plain counters)']
 TRUSTED = ['modelled rather than verified: ExecutorThread::{Execute,Start,Stop,RunRemaining,~ExecutorThread}, '
            'ConsumerThread::{Run,EmptyQueue}, Thread::{Start,FastStart,Join,IsRunning,_InternalRun}, '
-           'FutureImpl<T>::{Get,Set,Ref,DeRef}, Future<T>/Future<void> copy/operator=/destructor, SelectServer::{Execute,DrainAndExecute,RunCallbacks,'
+           'FutureImpl<T>/FutureImpl<void>::{Get,Set,IsComplete,Ref,DeRef}, Future<T>/Future<void> copy/operator=/destructor, SelectServer::{Execute,DrainAndExecute,RunCallbacks,'
            'DrainCallbacks,~SelectServer} with the wake pipe as a counter, PeriodicThread::{PeriodicThread,Run,Stop}, ThreadPool::{Init,Execute,JoinAll,~ThreadPool} with two workers, MutexLocker, FilePreferenceSaverThread::{SavePreferences,Synchronize,CompleteSynchronization,Join,Run}, SelectServer::{Run,Terminate} in the saver (hand transcription into the '
            'instruction lists of coq/Progs.v, validated per schedule by trace equality)',
            'props/C17/harness.cpp cooperative scheduler and pthread emulation (ld --wrap)']
@@ -31,10 +31,10 @@ def sj(l):
 
 
 SCENARIOS_Q = [('exec -', 30, 2), ('exec 1', 45, 3), ('exec 2', 55, 3), ('exec 1,1', 70, 4), ('exec 2,1', 80, 4),
-               ('exec 0,3', 80, 4), ('futraw', 16, 2), ('futcopy 0', 26, 2), ('periodic', 30, 2), ('locker', 30, 3), ('prefs', 70, 2), ('prefs2', 70, 3), ('prefsj', 40, 2), ('term', 90, 3), ('ssd 2 0 1', 50, 2), ('ssd 2 1 0', 50, 2), ('ssd 2,1 0,0 2', 70, 3), ('pool 1', 70, 3), ('pool 2', 85, 3), ('pool 3', 100, 3), ('poolre 1 1', 95, 3), ('poolre 2 1', 110, 3), ('futasg int', 75, 2), ('futasg void', 75, 2), ('futcopy 1', 40, 3), ('futcopy 2', 50, 4),
+               ('exec 0,3', 80, 4), ('futraw', 16, 2), ('futcopy 0', 26, 2), ('periodic', 30, 2), ('locker', 30, 3), ('prefs', 70, 2), ('prefs2', 70, 3), ('prefsj', 40, 2), ('term', 90, 3), ('ssd 2 0 1', 50, 2), ('ssd 2 1 0', 50, 2), ('ssd 2,1 0,0 2', 70, 3), ('pool 1', 70, 3), ('pool 2', 85, 3), ('pool 3', 100, 3), ('poolre 1 1', 95, 3), ('poolre 2 1', 110, 3), ('futasg int', 75, 2), ('futasg void', 75, 2), ('futpoll int 2', 40, 2), ('futpoll void 2', 40, 2), ('futcopy 1', 40, 3), ('futcopy 2', 50, 4),
                ('execre 1 1', 60, 3), ('execre 2 1', 75, 3), ('execre 1,1 1,1', 90, 4),
                ('ss 2 0 2', 25, 2), ('ss 1 1 0', 25, 2), ('ss 2 1 1', 40, 2), ('ss 3 2 0', 40, 2), ('ss 1,1 0,0 1', 40, 3), ('ss 2,1 1,1 2', 60, 3)]
-SCENARIOS_T = SCENARIOS_Q + [('poolre 2 2', 125, 3), ('poolre 3 1', 125, 3), ('execre 2,1 2,0', 100, 4), ('ss 2,2 2,1 3', 90, 3), ('ss 1,1,1 1,0,1 2', 80, 4), ('exec 3', 65, 3), ('exec 1,1,1', 95, 5), ('exec 2,2', 90, 4), ('exec 3,0,2', 110, 5)]
+SCENARIOS_T = SCENARIOS_Q + [('futpoll int 3', 48, 2), ('futpoll void 3', 48, 2), ('futpoll void 1', 34, 2), ('poolre 2 2', 125, 3), ('poolre 3 1', 125, 3), ('execre 2,1 2,0', 100, 4), ('ss 2,2 2,1 3', 90, 3), ('ss 1,1,1 1,0,1 2', 80, 4), ('exec 3', 65, 3), ('exec 1,1,1', 95, 5), ('exec 2,2', 90, 4), ('exec 3,0,2', 110, 5)]
 
 
 def gen_cases(rng, tier):
@@ -117,6 +117,9 @@ LEVEL_TEXT = ('Coq theorems over ALL schedules (induction on the step relation o
               'closures, uniqueness of ids not proved; also checked per schedule: end=undrained); Future<T>/Future<void> copy-assignment (self, shared, '
               'over a live state), std::swap and destruction order: modelled (init_fut_asg), lockset/lock discipline proved, '
               'absence of use-after-free only per enumerated schedule plus witnesses (ex_futasg_refcount, ex_futasg_finishes); '
+              'IsComplete() polled concurrently with Set() (init_fut_poll over FutPoll.P2): lockset, lock discipline and exact wait '
+              'queues proved for all schedules (c17_futpoll_lockset, c17_futpoll_discipline), the unlocked read is rejected by the '
+              'checker (c17_futpoll_unlocked_read_rejected), use-after-free freedom only per enumerated schedule; '
               'FutureImpl with more than two holders; ExecutorThread with callbacks that call Execute again '
               '(execre); deadlock freedom of the SelectServer scenario beyond the wake-up invariant. NOT modelled: closures '
               'that block on a Future inside the pool, SelectServer::Terminate (unlocked m_is_running read), timeouts/other '
